@@ -3,7 +3,7 @@
 From Coq Require Import List NArith ZArith Bool Arith.
 From RecordUpdate Require Import RecordUpdate.
 From JV Require Import Bytes Msg SrvModel SrvLemmas SrvBasics SrvC07 SrvC01 SrvHist SrvC01b.
-From JV Require SrvNoCrash.
+From JV Require SrvNoCrash SrvC03.
 Import ListNotations.
 
 (* 1. tasks.responses: one element per call, in request order, with the call's id and body; an id-less member
@@ -214,7 +214,69 @@ Proof. exact SrvC01b.c01_output_history. Qed.
 Print Assumptions c01_output_history.
 
 (* the reply of a complete unit never changes afterwards *)
-Theorem c01_responses_stable : forall s s' u, ext2 s s' -> u < length (units s) -> all_finished s u = true ->
+Theorem c01_reply_stable_run : forall c s tr s' oss u un, reach c s -> run s tr = Some (s', oss) ->
+  nth_error (units s) u = Some un -> all_finished s u = true ->
   responses (unit_tasks s' u) = responses (unit_tasks s u).
-Proof. exact SrvC01b.responses_stable. Qed.
-Print Assumptions c01_responses_stable.
+Proof. exact SrvC01b.c01_reply_stable_run. Qed.
+Print Assumptions c01_reply_stable_run.
+
+(* 10. the body of a call is the outcome of its one handler invocation.  Ghosts of the run: enter_count k s0 tr =
+       number of windows in which task k moves into its handler (OStart); gate_log k s0 tr = the outcomes the LGate
+       labels of the run gave to task k (an LGate p o goes to gate_idx s p = the first running task with params p).
+       lifet t ec gl = what the status of a task says about them. *)
+Theorem c01_task_life : forall c tr s oss k t, run (init_of c) tr = Some (s, oss) -> nth_error (tasks s) k = Some t ->
+  match t_st t with
+  | TSkip | TAtAcquire | TWaiting => enter_count k (init_of c) tr = 0 /\ gate_log k (init_of c) tr = []
+  | TRunning => enter_count k (init_of c) tr = 1 /\ gate_log k (init_of c) tr = [] /\ t_builtin t = false
+  | TAtHandled o =>
+      if t_builtin t then enter_count k (init_of c) tr = 0 /\ gate_log k (init_of c) tr = [] /\ o = ORes []
+      else enter_count k (init_of c) tr = 1 /\ gate_log k (init_of c) tr = [o]
+  | TDone bo =>
+      (enter_count k (init_of c) tr = 0 /\ gate_log k (init_of c) tr = [] /\
+       (bo = Some cancel_err \/ (t_builtin t = true /\ bo = body_of_outcome t (ORes [])))) \/
+      (enter_count k (init_of c) tr = 1 /\ t_builtin t = false /\
+       exists o, gate_log k (init_of c) tr = [o] /\ bo = body_of_outcome t o)
+  end.
+Proof. exact SrvC01b.c01_task_life. Qed.
+Print Assumptions c01_task_life.
+
+Theorem c01_body_is_unique_outcome : forall c tr s oss k t b, run (init_of c) tr = Some (s, oss) ->
+  nth_error (tasks s) k = Some t -> t_st t = TDone (Some b) -> t_builtin t = false -> b <> cancel_err ->
+  enter_count k (init_of c) tr = 1 /\ exists o, gate_log k (init_of c) tr = [o] /\ Some b = body_of_outcome t o.
+Proof. exact SrvC01b.c01_body_is_unique_outcome. Qed.
+Print Assumptions c01_body_is_unique_outcome.
+
+Theorem c01_cancel_err_body : forall c tr s oss k t, run (init_of c) tr = Some (s, oss) ->
+  nth_error (tasks s) k = Some t -> t_st t = TDone (Some cancel_err) -> t_builtin t = false ->
+  (enter_count k (init_of c) tr = 0 /\ gate_log k (init_of c) tr = []) \/
+  (enter_count k (init_of c) tr = 1 /\ exists o, gate_log k (init_of c) tr = [o] /\ body_of_outcome t o = Some cancel_err).
+Proof. exact SrvC01b.c01_cancel_err_body. Qed.
+Print Assumptions c01_cancel_err_body.
+
+Theorem c01_rejected_never_entered : forall c tr s oss k t e, run (init_of c) tr = Some (s, oss) ->
+  nth_error (tasks s) k = Some t -> t_pre t = Some e ->
+  enter_count k (init_of c) tr = 0 /\ gate_log k (init_of c) tr = [].
+Proof. exact SrvC01b.c01_rejected_never_entered. Qed.
+Print Assumptions c01_rejected_never_entered.
+
+Theorem c01_builtin_never_entered : forall c tr s oss k t, run (init_of c) tr = Some (s, oss) ->
+  nth_error (tasks s) k = Some t -> t_builtin t = true ->
+  enter_count k (init_of c) tr = 0 /\ gate_log k (init_of c) tr = [].
+Proof. exact SrvC01b.c01_builtin_never_entered. Qed.
+Print Assumptions c01_builtin_never_entered.
+
+(* notifications: a finished one (user handler) ran exactly once; at a quiescent point every runnable one of a
+   released message has been entered exactly once unless it still waits for a slot with all slots taken *)
+Theorem c01_notification_once : forall c tr s oss k t bo, run (init_of c) tr = Some (s, oss) ->
+  nth_error (tasks s) k = Some t -> is_note t = true -> t_builtin t = false -> t_st t = TDone bo ->
+  enter_count k (init_of c) tr = 1 /\ (exists o, gate_log k (init_of c) tr = [o]) /\ bo = None.
+Proof. exact SrvC01b.c01_notification_once. Qed.
+Print Assumptions c01_notification_once.
+
+Theorem c01_notification_once_at_quiescence : forall c tr s oss k t, run (init_of c) tr = Some (s, oss) ->
+  quiescent s = true -> nth_error (tasks s) k = Some t -> is_note t = true -> t_pre t = None -> t_builtin t = false ->
+  SrvC03.released s (t_unit t) = true ->
+  enter_count k (init_of c) tr = 1 \/
+  (t_st t = TWaiting /\ sem_free s = 0 /\ enter_count k (init_of c) tr = 0).
+Proof. exact SrvC01b.c01_notification_once_at_quiescence. Qed.
+Print Assumptions c01_notification_once_at_quiescence.
